@@ -1,6 +1,7 @@
 import Babble.Model.Quorum
 import Babble.Model.Median
 import Driver.HGEngine
+import Driver.ContEngine
 /-! Line-protocol driver: one operation per input line; for every line the driver prints the
     model's observations (lines starting with `O `) followed by a line containing a single `.`.
     Core Lean only (linked as an executable). -/
@@ -9,6 +10,7 @@ open Babble
 structure DState where
   ps : Quorum.PeerList := []
   hg : HGState := {}
+  cont : ContState := {}
 
 instance : Inhabited DState := ⟨{}⟩
 
@@ -19,6 +21,10 @@ def stepLine (st : DState) (toks : List String) : DState × List String :=
   | ["CASE"] => ({}, [])
   | "HG" :: rest => let (h, obs) := hgStep st.hg rest
                     ({ st with hg := h }, obs)
+  | "RI" :: rest => let (c, obs) := riStep st.cont rest
+                    ({ st with cont := c }, obs)
+  | "LRU" :: rest => let (c, obs) := lruStepD st.cont rest
+                     ({ st with cont := c }, obs)
   | ["Q", a, b] =>
     match a.toNat?, b.toNat? with
     | some lp, some lk => (st, [s!"O {Gen.superMajority lk} {Gen.trustCount lp lk}"])
